@@ -19,7 +19,9 @@ CMPS = ['>', '<', '>=', '<=', '=']
 SYMBOLS = ['C', 'C', 'C', 'O', 'H', 'H', '$', '&', 'X', 'any atom', 'heteroatom', 'heavy atom', 'Pt', 'M', 'N', 'Ru']
 LABEL_POOL = ['c1', 'c2', 'c3', 'c4', 'a', 'b', 'x1', 'o1', 'h1', 'atom_1', 'C1', 'labeled', 'ring', 'bond', 'single',
               'fragment', 'to', 'in', 'has', 'connected', 'Atom', 'q9', '_u', 'n2', 'm', 'k7', 'z', 'with', 'cis', 'X1',
-              '1a', 'double2']
+              '1a', 'double2',
+              # labels made of digits only (they are names, not positions)
+              '7', '3', '12', '1', '2', '0', '21']
 NAME_POOL = ['a', 'frag', 'f1', 'CH3', 'test_2', 'fragment1', 'ring', 'x', 'G', 'labeled', 'q']
 WS = [' ', ' ', ' ', '  ', '\n', '\t', ' \n ', '\n\n', '\t ', '   ']
 WS0 = ['', '', ' ', '\n', '  ']
@@ -300,6 +302,9 @@ def directed_fragment(draw, mm, max_atoms=5, perturb=True):
             atoms[k]['symbol'] = draw(st.sampled_from(SYMBOLS))
         elif what == 'suffix':
             atoms[k]['suffix'] = draw(st.sampled_from([None, '?'] + SUFFIXES))
+        elif what == 'bond' and ringbonds and draw(st.booleans()):
+            # the ring-closing statement carries a bond kind of its own (incl. ring / nonring / strong / partial)
+            ringbonds[draw(st.integers(0, len(ringbonds) - 1))][2] = draw(st.sampled_from(BONDS))
         elif what == 'bond' and tree:
             tree[draw(st.integers(0, len(tree) - 1))][2] = draw(st.sampled_from(BONDS))
         elif what == 'constraint':
